@@ -7,13 +7,13 @@ META = {
     "id": "C15",
     "level": "proof",
     "technique": "Coq theorems (rollback_restores, relate_fail_unchanged, relate_symmetric) over the Gallina model of InferenceTable::{snapshot, rollback_to, commit, relate} + on the real InferenceTable: full observable state before/after every failed relate, both argument orders on cloned tables, and model == implementation on the same histories",
-    "level_text": "Machine-checked proofs (Coq 8.16, axiom-free) about the model of the inference table with its three rolled-back fields (unify, vars, max_universe): rollback to a snapshot restores the table after any operation sequence, a relate that fails returns the table it was given, and failure is symmetric in the two arguments.  On every run, scripted histories of successful and failed unifications run on one real InferenceTable: after each failed relate the complete observable state (every variable's probe_var value, class structure, universes, max_universe also read from a clone, lengths of vars and of the ena table through the verif_state hook) is compared with the pre-state, every pair is related in both orders on clones, and the histories are compared with the model inside Coq.",
+    "level_text": "Machine-checked proofs (Coq 8.16, axiom-free) about the model of the inference table with its three rolled-back fields (unify, vars, max_universe): rollback to a snapshot restores the table after any operation sequence, a relate that fails returns the table it was given, and failure is symmetric in the two arguments.  On every run, scripted histories of successful and failed unifications run on one real InferenceTable: after each failed relate the complete observable state (every variable's probe_var value, class structure, universes, max_universe also read from a clone, lengths of vars and of the ena table through the verif_state hook) is compared with the pre-state, every pair is related in both orders on clones, and the histories are compared with the model inside Coq.  Order irrelevance is additionally checked on the implementation alone: deterministic base histories (var-var unions followed by the binding of a class member to a structure containing a class member, for type and const unknowns; general := int/float unknown := scalar chains) are re-run with every subset of relates argument-swapped, every permutation of the goal list and the goals zipped into one relate; success/failure and the resulting state (up to class roots and the names of variables created inside relate) must coincide, and no relate may panic.",
     "level_note": "Trusted: Coq kernel; the model of snapshot/rollback saves and restores the three fields wholesale (ena's undo log is not modelled; its effect is what the state comparison on the real table exercises); harness; the cfg(chalk_verif) hook InferenceTable::verif_state (read-only).",
     "design_ref": "DESIGN.md section 4 C15",
     "bins": ["infer"],
     "assumptions": ["the observable state is: vars.len(), unify.len(), max_universe, and per variable: class, universe if unbound, probe_var value",
                     "relate_symmetric is stated for the invariant relation on the fragment without fn pointers / aliases / dyn (Props/C15.v)"],
-    "quick_s": 40, "thorough_s": 400,
+    "quick_s": 50, "thorough_s": 420,
 }
 
 THEOREMS = ["rollback_restores", "relate_fail_unchanged", "relate_symmetric"]
